@@ -67,3 +67,32 @@ def validate_tiff(repo, gen_c, outdir):
         if f.endswith(".tif") or f.endswith(".bin") or f.endswith(".o"):
             os.remove(os.path.join(outdir, f))
     return n
+
+
+def validate_dm(repo, gen_c, outdir, incs):
+    """differential run of the C translation of device.manager.cpp against its g++ build"""
+    drv, sup, shim = (os.path.join(HERE, f) for f in ("dm_diff_driver.c", "dm_support.c", "dm_shim.c"))
+    real, model = os.path.join(outdir, "dm_real.bin"), os.path.join(outdir, "dm_model.bin")
+    objs = []
+    for s in (drv, sup):
+        o = os.path.join(outdir, os.path.basename(s) + ".o")
+        sh(["gcc", "-std=gnu11", "-O0", "-w", "-c", "-o", o] + incs + [s]); objs.append(o)
+    o_real = os.path.join(outdir, "dm_real.o")
+    sh(["g++", "-std=gnu++20", "-O0", "-w", "-DNDEBUG", "-c", "-o", o_real] + incs + [os.path.join(repo, "acquire-core-libs/src/acquire-device-hal/device/hal/device.manager.cpp")])
+    sh(["g++", "-o", real] + objs + [o_real])
+    o_model, o_shim = os.path.join(outdir, "dm_model.o"), os.path.join(outdir, "dm_shim.o")
+    sh(["gcc", "-std=gnu11", "-O0", "-w", "-c", "-o", o_model, gen_c])
+    sh(["gcc", "-std=gnu11", "-O0", "-w", "-c", "-o", o_shim, shim])
+    sh(["gcc", "-o", model] + objs + [o_model, o_shim])
+    ra = subprocess.run([real], capture_output=True, text=True, timeout=60)
+    rb = subprocess.run([model], capture_output=True, text=True, timeout=60)
+    if ra.returncode != 0 or rb.returncode != 0:
+        raise RuntimeError("differential validation (device manager): a side crashed: real rc=%d model rc=%d %s" % (ra.returncode, rb.returncode, (ra.stderr + rb.stderr)[-300:]))
+    la, lb = ra.stdout.splitlines(), rb.stdout.splitlines()
+    if la != lb:
+        diff = [(x, y) for x, y in zip(la, lb) if x != y][:3]
+        raise RuntimeError("differential validation (device manager): the C translation answers differently from the g++ build: %s (lines %d vs %d)" % (diff, len(la), len(lb)))
+    for f in os.listdir(outdir):
+        if f.endswith(".bin") or f.endswith(".o"):
+            os.remove(os.path.join(outdir, f))
+    return len(la)
